@@ -176,7 +176,7 @@ def build(pkgs):
     ok = True
     msgs = []
     with ThreadPoolExecutor(max_workers=4) as ex:
-        for pkg, race, rc, out, dt in ex.map(one, sorted(pkgs)):
+        for pkg, race, rc, out, dt in ex.map(one, sorted(pkgs, key=lambda x: (x[0], str(x[1])))):
             if rc != 0 or not os.path.exists(bin_path(pkg, race)):
                 ok = False
                 msgs.append("build of %s%s failed (rc=%d):\n%s" % (pkg, " -race" if race else "", rc, out[-4000:]))
